@@ -991,12 +991,12 @@ Print Assumptions C08_answers_every_window_after_anchor.
 
 (* ------------------------------------------------------------------------------------------ *)
 (* the hypotheses are satisfiable; the positive length cannot be dropped                       *)
-From CG Require Props.C13.
+From CG Require Spec.ZoneTables.
 
 Example zone_wf_satisfiable :
   forallb zone_wf
-          [CG.Props.C13.la; CG.Props.C13.havana; CG.Props.C13.chatham; CG.Props.C13.troll;
-           CG.Props.C13.st_johns_2005; utc_zone] = true.
+          [CG.Spec.ZoneTables.la; CG.Spec.ZoneTables.havana; CG.Spec.ZoneTables.chatham; CG.Spec.ZoneTables.troll;
+           CG.Spec.ZoneTables.st_johns_2005; utc_zone] = true.
 Proof. vm_compute. reflexivity. Qed.
 
 (* C08_reverse_exact / C08_reverse_is_rev_forward_exact are not vacuous: the every-other-week rule
@@ -1020,7 +1020,7 @@ Proof.
 Qed.
 
 (* a daily rule at 09:00 Los Angeles time for one hour, no anchor *)
-Definition ex_daily : rule := mkRule Daily 1 [] [] [] [] [] None 32400 3600 CG.Props.C13.la.
+Definition ex_daily : rule := mkRule Daily 1 [] [] [] [] [] None 32400 3600 CG.Spec.ZoneTables.la.
 
 Lemma ex_daily_matches d : matches ex_daily d = true.
 Proof.
